@@ -269,7 +269,14 @@ func genFormat(ctx *Ctx) (string, []cty.Value) {
 		explicit := 0
 		if r.Intn(6) == 0 {
 			explicit = 1 + r.Intn(len(args)+2)
-			sb.WriteString("[" + strconv.Itoa(explicit) + "]")
+			if r.Intn(8) == 0 {
+				// argument numbers beyond every Go integer width (the scanner accumulates digits in an int):
+				// such an index names no argument, whatever it wraps to
+				explicit = len(args) + 1
+				sb.WriteString("[" + c14HugeIndexes[r.Intn(len(c14HugeIndexes))] + "]")
+			} else {
+				sb.WriteString("[" + strconv.Itoa(explicit) + "]")
+			}
 		}
 		sb.WriteByte(mode)
 		nverbs++
@@ -290,6 +297,10 @@ func genFormat(ctx *Ctx) (string, []cty.Value) {
 	}
 	return sb.String(), args
 }
+
+// decimal argument numbers around the wrap-around points of 32- and 64-bit integers
+var c14HugeIndexes = []string{"2147483648", "4294967296", "4294967297", "9223372036854775807", "9223372036854775808", "18446744073709551615",
+	"18446744073709551616", "18446744073709551617", "18446744073709551618", "99999999999999999999999", "36893488147419103233"}
 
 func runC14Format(ctx *Ctx) {
 	n := ctx.N(5000, 100000)
